@@ -1,5 +1,5 @@
 CONSTANTS
-  MaxDepth = 8
+  MaxDepth = 7
   Dims = {1}
   Addrs = {1, 2, 3}
   KeyHoldsRef = TRUE
